@@ -26,16 +26,16 @@ THEOREMS = [
     "C10.overwritten_column_counterexample",
     "C10.order_perm",
     "C10.order_respects",
+    "C10.order_fuel",
+    "C10.order_cycle_never_released",
     "C10.reorder_order",
     "C10.added_constraint_counterexample",
     "C10.added_constraint_partial",
+    "C10.kept_constraints",
+    "C10.kept_primary_key",
     "C10.kept_indexes",
 ]
 PARTIAL = {
-    "C10.schema (not a theorem)": "the `untouched named constraints / foreign keys / primary key are carried over with the same definition` "
-    "part of C10.schema is established by the correspondence check and by the Lean checker Spec.Batch.check10 on every implementation "
-    "run only; proved parts: C10.kept_indexes (untouched indexes), C10.added_constraint_partial (requested constraints), "
-    "C10.values/values_partial (column feeds), C10.order_* (column order)",
     "C10.added_constraint_partial": "full statement `C10.added_constraint_statement` (every constraint requested by add_constraint is "
     "in the new table) fails on the unchanged tree (finding C10-F1); proved under the hypothesis that every column the "
     "constraint names is a key of column_transfers (original name of an existing column, or an added column)",
